@@ -246,7 +246,8 @@ fn get_rustfmt_info(args: &[String]) -> Result<i32, io::Error> {
     if result.success() {
         Ok(SUCCESS)
     } else {
-        Ok(result.code().unwrap_or(SUCCESS))
+        // (no exit code: the child was killed by a signal)
+        Ok(result.code().unwrap_or(FAILURE))
     }
 }
 
